@@ -886,7 +886,7 @@ func genScenario(r *rand.Rand, t *Tree, id int) *Scenario {
 		}
 	}
 	if chance(r, 0.25) {
-		sc.Handler = pick(r, []string{"identity", "dropnext", "inject", "error"})
+		sc.Handler = pick(r, []string{"identity", "dropnext", "dropall", "inject", "error"})
 	}
 	sc.CmdHandler = chance(r, 0.3)
 	sc.ExecErr = chance(r, 0.1)
